@@ -15,6 +15,7 @@ import (
 type lockSpec struct {
 	dir      string   // package dir
 	typ      string   // struct type name
+	mutex    string   // name of the guarding mutex field ("" = the struct's only/last mutex)
 	guarded  []string // guarded fields
 	rule     string   // rule name prefix, e.g. "R-LOCKS"
 	l4Exempt map[string]string // method -> reason (several critical sections are intended)
@@ -86,7 +87,7 @@ func (c *Ctx) ruleLocks(sp lockSpec) {
 	for i := 0; i < st.NumFields(); i++ {
 		f := st.Field(i)
 		tn := namedType(f.Type())
-		if tn == "sync.Mutex" || tn == "sync.RWMutex" {
+		if (tn == "sync.Mutex" || tn == "sync.RWMutex") && (sp.mutex == "" || sp.mutex == f.Name()) {
 			mutexIdx = i
 		}
 		for _, g := range sp.guarded {
@@ -353,6 +354,60 @@ func (c *Ctx) ruleLocks(sp lockSpec) {
 			c.xref(sp.rule+"/"+sub, key, p, ok, msg)
 		} else {
 			c.ob(sp.rule+"/"+sub, key, p, ok, msg)
+		}
+	}
+	// roots: an unexported function that needs the lock from its callers must be reached by static calls only;
+	// a `go f()`, a function value or a method that nobody calls statically (interface dispatch, callbacks) has no
+	// caller whose lock state can discharge the requirement.
+	{
+		static := map[*ssa.Function]int{}
+		async := map[*ssa.Function]string{}
+		for _, f := range funcs {
+			eachInstr(f, func(_ *ssa.BasicBlock, _ int, ins ssa.Instruction) {
+				var inCall *ssa.Function
+				if ci, ok := ins.(ssa.CallInstruction); ok {
+					if cal := ci.Common().StaticCallee(); cal != nil {
+						if cal.Origin() != nil {
+							cal = cal.Origin()
+						}
+						if _, isCall := ins.(*ssa.Call); isCall {
+							static[cal]++
+							inCall = cal
+						} else if _, isGo := ins.(*ssa.Go); isGo {
+							async[cal] = "started with go in " + shortFn(f)
+							inCall = cal
+						} else {
+							static[cal]++ // defer: runs in the deferring function; its state is checked at the defer site below
+							inCall = cal
+						}
+					}
+				}
+				for _, op := range ins.Operands(nil) {
+					if op == nil || *op == nil {
+						continue
+					}
+					if g, ok := (*op).(*ssa.Function); ok && g != inCall && infos[g] != nil && g.Parent() == nil {
+						async[g] = "used as a function value in " + shortFn(f)
+					}
+				}
+			})
+		}
+		for _, f := range funcs {
+			info := infos[f]
+			if info.needs == 0 || info.exported || f.Parent() != nil {
+				continue
+			}
+			if _, ok := sp.l1Exempt[shortFn(f)]; ok {
+				continue
+			}
+			why := async[f]
+			if why == "" && static[f] == 0 {
+				why = "no static call site in the package (reached through an interface, a callback or from outside)"
+			}
+			if why == "" {
+				continue
+			}
+			rep("L1", relName(f.String())+":root", f.Pos(), false, fmt.Sprintf("%s needs the lock from its caller (%s) but is %s: nobody holds the lock for it", shortFn(f), info.needWhy, why))
 		}
 	}
 	// report L1/L2 per access; L3 per call; L4 per function
